@@ -246,10 +246,12 @@ class chunks(object):
         # Largest difference in right ascension that a point within
         # marginSize of (ra, dec) can have.  The flat-sky estimate
         # marginSize/cosDecMin is too small at high declination.
+        # The arcsine formula holds for margins up to 90 degrees; a
+        # larger cap contains a whole meridian.
         #
         sinMargin = np.sin(np.deg2rad(marginSize))
         cosDec = np.cos(np.deg2rad(dec))
-        if sinMargin < cosDec:
+        if marginSize < 90.0 and sinMargin < cosDec:
             raMargin = np.rad2deg(np.arcsin(sinMargin/cosDec))
         else:
             raMargin = 360.0
